@@ -206,6 +206,7 @@ def scan_file(relpath, text):
 
 
 MUT_CTORS = {'dict', 'list', 'set', 'defaultdict', 'OrderedDict', 'Counter', 'deque', 'WeakValueDictionary', 'WeakKeyDictionary'}
+STATEFUL_CTORS = {'count', 'cycle', 'iter', 'Random', 'SystemRandom'}
 MUT_METHODS = {'add', 'append', 'extend', 'update', 'setdefault', 'pop', 'popitem', 'clear', 'insert', 'remove', 'discard', 'appendleft'}
 
 
@@ -223,9 +224,12 @@ def scan_module_state(relpath, text):
     if isinstance(v, ast.Call):
       f = v.func
       nm = f.attr if isinstance(f, ast.Attribute) else getattr(f, 'id', None)
-      return nm in MUT_CTORS
-    return False
+      # iterators / counters / generators are consumed by next(): state just like a container
+      return nm in MUT_CTORS or nm in STATEFUL_CTORS
+    return isinstance(v, ast.GeneratorExp)
   cands = {}
+  scalars = {}
+  class_scalars = {}
   for st in tree.body:
     tgt, val = None, None
     if isinstance(st, ast.Assign) and len(st.targets) == 1 and isinstance(st.targets[0], ast.Name):
@@ -234,11 +238,17 @@ def scan_module_state(relpath, text):
       tgt, val = st.target.id, st.value
     if tgt and is_mut(val):
       cands[tgt] = st.lineno
+    elif tgt:
+      scalars[tgt] = st.lineno   # a module-level name of any type that a function rebinds through `global` is state, too
     if isinstance(st, ast.ClassDef):
       for cs in st.body:
         if isinstance(cs, ast.Assign) and len(cs.targets) == 1 and isinstance(cs.targets[0], ast.Name) and is_mut(cs.value):
           cands['%s.%s' % (st.name, cs.targets[0].id)] = cs.lineno
-  if not cands:
+        elif isinstance(cs, (ast.Assign, ast.AnnAssign)) and getattr(cs, 'value', None) is not None:
+          t = cs.targets[0] if isinstance(cs, ast.Assign) and len(cs.targets) == 1 else getattr(cs, 'target', None)
+          if isinstance(t, ast.Name):
+            class_scalars['%s.%s' % (st.name, t.id)] = cs.lineno   # rebound through `cls.X = ` / `Class.X += `: state as well
+  if not cands and not scalars and not class_scalars:
     return []
   writers = {}
   for fn in ast.walk(tree):
@@ -263,6 +273,21 @@ def scan_module_state(relpath, text):
         for g in n.names:
           if g in cands:
             writers.setdefault(g, set()).add(fn.name)
+          elif g in scalars and any(isinstance(m, (ast.Assign, ast.AugAssign, ast.AnnAssign)) and any(
+              isinstance(t, ast.Name) and t.id == g for t in (m.targets if isinstance(m, ast.Assign) else [m.target]))
+                                    for m in ast.walk(fn)):
+            cands[g] = scalars[g]
+            writers.setdefault(g, set()).add(fn.name)
+      if isinstance(n, ast.Call) and isinstance(n.func, ast.Name) and n.func.id == 'next' and n.args:
+        base = n.args[0]
+      if isinstance(n, (ast.Assign, ast.AugAssign)):
+        for t in (n.targets if isinstance(n, ast.Assign) else [n.target]):
+          if isinstance(t, ast.Attribute) and isinstance(t.value, ast.Name):
+            for c in class_scalars:
+              cn, an = c.split('.')
+              if t.attr == an and t.value.id in (cn, 'cls'):
+                cands[c] = class_scalars[c]
+                writers.setdefault(c, set()).add(fn.name)
       if base is None:
         continue
       nm = None
